@@ -76,6 +76,8 @@ TEMPLATES = [
     ("map_dstar", "%{{1: {0}, **{1}, **{2}}}", [0, 1, 2], "tmo"),
     ("varcall_chainarg", "[{0}]@([{1}])^idf", [0, 1], "tt"),
     ("litcall_chainarg", "[{0}]@([{1}]){{|x| x}}", [0, 1], "tt"),
+    ("scalar_litcall_chainarg", "{0}.({1}){{|x| x}}", [0, 1], "tt"),
+    ("scalar_propcall_chainarg", "{0}.({1})S", [0, 1], "tt"),
     ("propcall_reduce_init", "[{0}]$({1})+", [0, 1], "tt"),
     ("varcall_reduce_init", "[{0}]$({1})^f2", [0, 1], "tt"),
     ("litcall_reduce_init", "[{0}]$({1}){{|a, x| a}}", [0, 1], "tt"),
@@ -252,6 +254,15 @@ def gen(chk):
             for b in ("boom", "boomz", "boomn") if w != "try" else ("boom",):
                 prog = '"before".p\n' + wrap(w, pexpr % b) + '\n"after".p\n'
                 cases.append((prog, expect(w, [1], b, 1), "predicate:" + pname + "/" + w))
+    # a raise inside a deferred call replaces the outcome; a defer still runs when the body raises
+    for w in ("plain", "try", "fn"):
+        for b in ("boom", "boomz") if w != "try" else ("boom",):
+            prog = '"before".p\n' + wrap(w, "{|| defer %s(1); t(2)}()" % b) + '\n"after".p\n'
+            cases.append((prog, expect(w, [2, 1], b, 1), "defer:raising/" + w))
+            prog = '"before".p\n' + wrap(w, "{|| defer t(9); %s(2)}()" % b) + '\n"after".p\n'
+            e = expect(w, [2], b, 2)
+            e["out"] = e["out"].replace("2\n", "2\n9\n", 1)
+            cases.append((prog, e, "defer:body-raises/" + w))
     rng.setstate(st)
     # nested, random
     n = 500 if chk.tier == "quick" else 15000
